@@ -587,7 +587,8 @@ fn run_temper(su: &TemperSetup) {
                     }
                 }
             }
-            let expect_swaps = if nrep >= 2 || (su.parallel && nrep >= 1) { su.t / su.s } else { 0 };
+            // with <= 1 replica neither driver touches a replica in a tempering step (the rayon step since fix f20b8b5, finding F30)
+            let expect_swaps = if nrep >= 2 { su.t / su.s } else { 0 };
             for (i, (states, e)) in r.iter().enumerate() {
                 let (m, _) = &tc.graph_ref()[i];
                 let raw = m.raw();
